@@ -2175,8 +2175,8 @@ bool CanettiGennaroJareckiKrawczykRabinDKG::Generate
 			std::vector<size_t>::iterator it = std::find(QUAL.begin(), QUAL.end(), idx2dkg[j]);
 			if ((it != QUAL.end()) && (std::find(d_rvss->QUAL.begin(), d_rvss->QUAL.end(), idx2dkg[j]) == d_rvss->QUAL.end()))
 			{
-				err << "DKG(" << label << "): P_" << idx2dkg[i] << ": WARNING - party erased from QUAL; complaint against P_" << idx2dkg[j] << std::endl;
-				QUAL.erase(it);
+				// the party stays in QUAL (its shares are part of every x_i): the complaint makes step 7 reconstruct its z_j
+				err << "DKG(" << label << "): P_" << idx2dkg[i] << ": WARNING - party disqualified in d_rvss; complaint against P_" << idx2dkg[j] << std::endl;
 				complaints.push_back(idx2dkg[j]);
 			}
 		}
@@ -2188,7 +2188,8 @@ bool CanettiGennaroJareckiKrawczykRabinDKG::Generate
 				rbc->Broadcast(d_i[i]);
 				rbc->Broadcast(dprime_i[i]);
 			}
-			else if ((j != i) && (std::find(QUAL.begin(), QUAL.end(), idx2dkg[j]) != QUAL.end()))
+			else if ((j != i) && (std::find(QUAL.begin(), QUAL.end(), idx2dkg[j]) != QUAL.end()) &&
+				(std::find(d_rvss->QUAL.begin(), d_rvss->QUAL.end(), idx2dkg[j]) != d_rvss->QUAL.end()))
 			{
 				if (!rbc->DeliverFrom(d_i[j], j))
 				{
